@@ -33,6 +33,10 @@ func init() {
 			{ID: "C12.7", Desc: "in the list splitter an escaped character is consumed before quotes and commas are interpreted", Run: ruleC12_7, MinSites: 1},
 			{ID: "C12.13", Desc: "a backslash outside a quoted-string escapes nothing", Run: func(c *Ctx) { ruleEscapeOnlyInQuotes(c, "C12.13") }, MinSites: 1},
 			{ID: "C12.14", Desc: "directive maps are read through the accessors only", Run: func(c *Ctx) { ruleDirectiveMapsThroughAccessors(c, "C12.14") }, MinSites: 1},
+			{ID: "C12.15", Desc: "a quoted-pair stands for the escaped octet", Run: func(c *Ctx) { ruleQuotedPair(c, "C12.15") }, MinSites: 1},
+			{ID: "C12.16", Desc: "the directive collector visits every pair of the field", Run: func(c *Ctx) { ruleCollectorVisitsEveryPair(c, "C12.16") }, MinSites: 1},
+			{ID: "C12.17", Desc: "fields nominated by a qualified no-cache are removed by their canonical names on every path (set-cookie, SET-COOKIE)", Run: func(c *Ctx) { ruleC02_4(c); renameRule(c, "C02.4", "C12.17") }, MinSites: 1},
+			{ID: "C12.18", Desc: "a signed number is not delta-seconds", Run: func(c *Ctx) { ruleDeltaSecondsUnsigned(c, "C12.18") }, MinSites: 1},
 		},
 	})
 }
